@@ -141,3 +141,6 @@ def run(ctx):
         R.ob('C10.requests', ('Requests<%s>::poll_next' % chain_name(ch), 'ends only when inbound ended, flushed, and nothing in flight'), bool(ends) and not badr,
              'the request stream ends only after the inbound side ended, the last flush completed, and (no request is in flight or the response queue is closed)', [rp.loc(rp.d)],
              'offending ((R last, T last, flushed, responses closed), idle): %s' % sorted(set(badr), key=repr)[:6])
+    # (5) the deadline source the channel waits for is exhausted as soon as nothing is in flight: no removal leaves its timer behind
+    from .C11 import removal_pairing
+    removal_pairing(ctx, 'C10.timers', 'server')
